@@ -10,6 +10,7 @@ import (
 	"github.com/hneemann/parser2/listMap"
 	"math"
 	"sort"
+	"sync"
 )
 
 // NewListConvert creates a list containing the given elements if the elements
@@ -42,7 +43,7 @@ func NewListOfMaps[I any](toMap ToMapInterface[I], items []I) *List {
 
 // NewList creates a new list containing the given elements
 func NewList(items ...Value) *List {
-	return &List{items: items, itemsPresent: true, iterable: createSliceIterable(items), size: len(items)}
+	return &List{items: items, itemsPresent: true, producer: createSliceIterable(items), size: len(items)}
 }
 
 func createSliceIterable(items []Value) ListProducer {
@@ -59,24 +60,42 @@ func createSliceIterable(items []Value) ListProducer {
 
 // NewListFromIterable creates a list based on the given Iterable
 func NewListFromIterable(li ListProducer) *List {
-	return &List{iterable: li, itemsPresent: false, size: -1}
+	return &List{producer: li, itemsPresent: false, size: -1}
 }
 
 // NewListFromSizedIterable creates a list based on the given Iterable.
 // In contrast to NewListFromIterable, this function is to be used if the
 // size of the iterable is known.
 func NewListFromSizedIterable(li ListProducer, size int) *List {
-	return &List{iterable: li, itemsPresent: false, size: size}
+	return &List{producer: li, itemsPresent: false, size: size}
 }
 
 type ListProducer = func(funcGen.Stack[Value]) iterator.Producer[Value]
 
 // List represents a list of values
 type List struct {
+	// mu guards items, itemsPresent and producer. A list may be reachable from a constant
+	// of a generated function, which can be evaluated from several goroutines at once.
+	mu           sync.Mutex
 	items        []Value
 	itemsPresent bool
-	iterable     ListProducer
+	producer     ListProducer
 	size         int
+}
+
+// iterable returns a producer creating the items of the list
+func (l *List) iterable(st funcGen.Stack[Value]) iterator.Producer[Value] {
+	l.mu.Lock()
+	p := l.producer
+	l.mu.Unlock()
+	return p(st)
+}
+
+// evaluated returns the items and true if the items are already available
+func (l *List) evaluated() ([]Value, bool) {
+	l.mu.Lock()
+	defer l.mu.Unlock()
+	return l.items, l.itemsPresent
 }
 
 func (l *List) ToMap() (Map, bool) {
@@ -145,9 +164,11 @@ func (l *List) ToList() (*List, bool) {
 }
 
 func (l *List) Eval(st funcGen.Stack[Value]) error {
+	l.mu.Lock()
+	defer l.mu.Unlock()
 	if !l.itemsPresent {
 		var it []Value
-		for v, err := range l.iterable(st) {
+		for v, err := range l.producer(st) {
 			if err != nil {
 				return err
 			}
@@ -155,7 +176,7 @@ func (l *List) Eval(st funcGen.Stack[Value]) error {
 		}
 		l.items = it
 		l.itemsPresent = true
-		l.iterable = createSliceIterable(it)
+		l.producer = createSliceIterable(it)
 	}
 	return nil
 }
@@ -223,7 +244,8 @@ func (l *List) ToSlice(st funcGen.Stack[Value]) ([]Value, error) {
 	if err != nil {
 		return nil, err
 	}
-	return l.items[0:len(l.items):len(l.items)], nil
+	items, _ := l.evaluated()
+	return items[0:len(items):len(items)], nil
 }
 
 // CopyToSlice creates a slice copy of all elements
@@ -232,8 +254,9 @@ func (l *List) CopyToSlice(st funcGen.Stack[Value]) ([]Value, error) {
 	if err != nil {
 		return nil, err
 	}
-	co := make([]Value, len(l.items))
-	copy(co, l.items)
+	items, _ := l.evaluated()
+	co := make([]Value, len(items))
+	copy(co, items)
 	return co, nil
 }
 
@@ -245,6 +268,7 @@ func (l *List) Append(st funcGen.Stack[Value]) (*List, error) {
 	if err != nil {
 		return nil, err
 	}
+	l.mu.Lock()
 	newList := append(l.items, st.Get(1))
 	// Guarantee a copy operation the next time append is called on this
 	// list, which is only a rare special case, as the new list is usually
@@ -252,12 +276,13 @@ func (l *List) Append(st funcGen.Stack[Value]) (*List, error) {
 	if len(l.items) != cap(l.items) {
 		l.items = l.items[:len(l.items):len(l.items)]
 	}
+	l.mu.Unlock()
 	return NewList(newList...), nil
 }
 
 func (l *List) SizeIfKnown() (int, bool) {
-	if l.itemsPresent {
-		return len(l.items), true
+	if items, ok := l.evaluated(); ok {
+		return len(items), true
 	} else if l.size >= 0 {
 		return l.size, true
 	} else {
@@ -270,7 +295,8 @@ func (l *List) Size(st funcGen.Stack[Value]) (int, error) {
 	if err != nil {
 		return 0, err
 	}
-	return len(l.items), nil
+	items, _ := l.evaluated()
+	return len(items), nil
 }
 
 func ToFunc(name string, st funcGen.Stack[Value], n int, args int) (funcGen.Function[Value], error) {
@@ -481,9 +507,9 @@ func (l *List) Merge(sta funcGen.Stack[Value]) (*List, error) {
 }
 
 func (l *List) First(st funcGen.Stack[Value]) (Value, error) {
-	if l.itemsPresent {
-		if len(l.items) > 0 {
-			return l.items[0], nil
+	if items, ok := l.evaluated(); ok {
+		if len(items) > 0 {
+			return items[0], nil
 		}
 	} else {
 		for v, err := range l.iterable(st) {
@@ -494,9 +520,9 @@ func (l *List) First(st funcGen.Stack[Value]) (Value, error) {
 }
 
 func (l *List) Single(st funcGen.Stack[Value]) (Value, error) {
-	if l.itemsPresent {
-		if len(l.items) == 1 {
-			return l.items[0], nil
+	if items, ok := l.evaluated(); ok {
+		if len(items) == 1 {
+			return items[0], nil
 		}
 	} else {
 		var found bool
@@ -520,9 +546,9 @@ func (l *List) Single(st funcGen.Stack[Value]) (Value, error) {
 }
 
 func (l *List) Last(st funcGen.Stack[Value]) (Value, error) {
-	if l.itemsPresent {
-		if len(l.items) > 0 {
-			return l.items[len(l.items)-1], nil
+	if items, ok := l.evaluated(); ok {
+		if len(items) > 0 {
+			return items[len(items)-1], nil
 		}
 	} else {
 		var last Value
@@ -1381,7 +1407,7 @@ func (l *List) containsAllItems(st funcGen.Stack[Value], lookForList *List, fg *
 		return false, err
 	}
 
-	if l.itemsPresent && len(l.items) < len(lookFor) {
+	if items, ok := l.evaluated(); ok && len(items) < len(lookFor) {
 		return false, nil
 	}
 
